@@ -12,16 +12,20 @@ from pyvc.values import to_real
 M = 'pygom.utilR.distn:'
 
 # function -> (family, kind, argument names after the point, canonical-parameter builder)
-def _rate(a):
-    return {'loc': 0, 'scale': 1 / to_real(a['rate'])}
+def _inv(v):
+    return 1.0 / v if isinstance(v, (int, float)) else 1 / to_real(v)
+
+
+def _sub(a, b):
+    return a - b if isinstance(a, (int, float)) and isinstance(b, (int, float)) else to_real(a) - to_real(b)
 
 
 TABLE = {
-    'exp':   ('expon', ['rate'], lambda a: {'loc': 0, 'scale': 1 / to_real(a['rate'])}, {'rate': 1.0}),
-    'gamma': ('gamma', ['shape', 'rate'], lambda a: {'a': a['shape'], 'loc': 0, 'scale': 1 / to_real(a['rate'])}, {'rate': 1.0}),
+    'exp':   ('expon', ['rate'], lambda a: {'loc': 0, 'scale': _inv(a['rate'])}, {'rate': 1.0}),
+    'gamma': ('gamma', ['shape', 'rate'], lambda a: {'a': a['shape'], 'loc': 0, 'scale': _inv(a['rate'])}, {'rate': 1.0}),
     'norm':  ('norm', ['mean', 'sd'], lambda a: {'loc': a['mean'], 'scale': a['sd']}, {'mean': 0, 'sd': 1}),
     'chisq': ('chi2', ['df'], lambda a: {'df': a['df'], 'loc': 0, 'scale': 1}, {}),
-    'unif':  ('uniform', ['min', 'max'], lambda a: {'loc': a['min'], 'scale': to_real(a['max']) - to_real(a['min'])}, {'min': 0.0, 'max': 1.0}),
+    'unif':  ('uniform', ['min', 'max'], lambda a: {'loc': a['min'], 'scale': _sub(a['max'], a['min'])}, {'min': 0.0, 'max': 1.0}),
     'beta':  ('beta', ['shape1', 'shape2'], lambda a: {'a': a['shape1'], 'b': a['shape2'], 'loc': 0, 'scale': 1}, {}),
     'pois':  ('poisson', ['mu'], lambda a: {'mu': a['mu'], 'loc': 0}, {'mu': 1.0}),
     'binom': ('binom', ['size', 'prob'], lambda a: {'n': a['size'], 'p': a['prob'], 'loc': 0}, {}),
@@ -59,8 +63,7 @@ def _native_dpq(fname, kind, dist, log, args, use_defaults):
     full = dict(args)
     if use_defaults:
         full.update(defaults)
-    cp = {k: (float(v) if not isinstance(v, (int, float)) else v) for k, v in canon({k: float(v) for k, v in full.items() if k != 'x'}).items()}
-    cp = {k: float(z3.simplify(v).as_decimal(12).rstrip('?')) if isinstance(v, z3.ExprRef) else v for k, v in cp.items()}
+    cp = canon({k: float(v) for k, v in full.items() if k != 'x'})
     ref = getattr(getattr(st, family), _method(kind, family, log))(args['x'], **cp)
     try:
         got = f(*call_args, **kw)
@@ -182,8 +185,8 @@ def dnbinom_prob(vc):
 
 GEN = {
     # R name: (numpy sampler family, parameter names, draw-parameter builder)
-    'exp':   ('exponential', ['rate'], lambda a: [1 / to_real(a['rate'])]),
-    'gamma': ('gamma', ['shape', 'rate'], lambda a: [a['shape'], 1 / to_real(a['rate'])]),
+    'exp':   ('exponential', ['rate'], lambda a: [_inv(a['rate'])]),
+    'gamma': ('gamma', ['shape', 'rate'], lambda a: [a['shape'], _inv(a['rate'])]),
     'norm':  ('normal', ['mean', 'sd'], lambda a: [a['mean'], a['sd']]),
     'chisq': ('chisquare', ['df'], lambda a: [a['df']]),
     'unif':  ('uniform', ['min', 'max'], lambda a: [a['min'], a['max']]),
